@@ -769,10 +769,11 @@ fn _solve<T: FloatT>(Lp: &[usize], Li: &[usize], Lx: &[T], Dinv: &[T], b: &mut [
 
 // Construct an inverse permutation from a permutation
 fn _invperm(p: &[usize]) -> Result<Vec<usize>, QDLDLError> {
-    let mut b = vec![0; p.len()];
+    // usize::MAX marks an entry not yet assigned (0 is a valid index)
+    let mut b = vec![usize::MAX; p.len()];
 
     for (i, j) in p.iter().enumerate() {
-        if *j < p.len() && b[*j] == 0 {
+        if *j < p.len() && b[*j] == usize::MAX {
             b[*j] = i;
         } else {
             return Err(QDLDLError::InvalidPermutation);
